@@ -1184,7 +1184,7 @@ func init() {
 			if tier == "thorough" {
 				return kernel.TierSpec{Runs: 20_000_000, WallSeconds: 1200, ShrinkSecs: 180, RunBudgetMs: 30000}
 			}
-			return kernel.TierSpec{Runs: 200_000, WallSeconds: 45, ShrinkSecs: 20, RunBudgetMs: 20000}
+			return kernel.TierSpec{Runs: 400_000, WallSeconds: 45, ShrinkSecs: 20, RunBudgetMs: 20000}
 		},
 		Rule: "each run = one seeded registration history (<=24 operations over RegisterTokenType / Register{Prefix,Infix,Postfix}Operator with repeated names, built-in tokens and levels 1..13, on one or two builder pairs) interleaved with Build operations (parsed at once or after later registrations) and probe expressions placing a registered operator next to built-in binary, unary, postfix, call, member, index and assignment operators on either side; distinct = distinct hash of the history including probe texts; non-trivial = at least 3 history operations",
 		Real:      []string{"lexer.Builder (RegisterTokenType, token interceptor chain)", "parser.Builder (operator registration, duplicate bookkeeping, Build)", "parser (binding-power table copy, registered operator parse functions)"},
